@@ -173,6 +173,10 @@ func (t Track) validate() error {
 		if x.TickDelta > maxTickDelta {
 			return errorx.Invalid("delta time of op[%d] exceeds %d ticks", i, maxTickDelta)
 		}
+		// the length of a text is a variable length quantity like a delta time
+		if v, ok := x.Func.(interface{ textLen() int }); ok && v.textLen() > maxTickDelta {
+			return errorx.Invalid("text of op[%d] exceeds %d bytes", i, maxTickDelta)
+		}
 	}
 	return nil
 }
